@@ -92,7 +92,8 @@ Root == Sh.root
 HasSubject(n) == \E r \in Sh.refs : r[1] = n
 SubjectOf(n) == (CHOOSE r \in Sh.refs : r[1] = n)[2]
 AllRefs(n) == {r[1] : r \in {r \in Sh.refs : r[2] = n}}
-Listed(n) == {r[1] : r \in {r \in Sh.refs : r[2] = n /\ (conf.filter = "" \/ r[3] = conf.filter)}}
+\* every ImageWithReferrers(filter) option contributes what it selects; no filter option = everything
+Listed(n) == {r[1] : r \in {r \in Sh.refs : r[2] = n /\ (conf.filter = {} \/ r[3] \in conf.filter)}}
 FbTag(n) == "fb:" \o n
 FbNode(n) == "FB:" \o n
 \* digest tags of n at the source: <<tag, manifest it resolves to, is the referrers fall-back tag>>
@@ -122,11 +123,16 @@ InitT == (CASE conf.tag0 = "stale" -> {<<"T", "OLDM">>}
 
 \* -------------------------------------------------------------------- tasks
 NoTask == 0
-Task(k, node, par, pc, tag, sdig, via, inl) ==
-  [k |-> k, node |-> node, par |-> par, pc |-> pc, tag |-> tag, sdig |-> sdig, via |-> via, inl |-> inl,
+\* rp: the target repository this call writes to ("" = the image's target, "r/" = the referrer target of
+\* ImageWithReferrerTgt); everything in the target store, and the seen map, is named rp \o node
+Task(k, node, par, pc, tag, sdig, via, inl, rp) ==
+  [k |-> k, node |-> node, par |-> par, pc |-> pc, tag |-> tag, sdig |-> sdig, via |-> via, inl |-> inl, rp |-> rp,
    mt |-> "none", ms |-> "none", canc |-> FALSE, pend |-> 0, err |-> "none", res |-> "", got |-> FALSE,
    own |-> FALSE, hold |-> FALSE, wo |-> NoTask, rtag |-> FALSE]
 Ids == 1..Len(tasks)
+Q(t) == t.rp \o t.node                     \* the object of task t in its target repository
+QT(t) == t.rp \o t.tag                     \* its tag there
+RefRp(t) == IF conf.refTgt THEN "r/" ELSE t.rp
 RECURSIVE AncSelf(_)
 AncSelf(i) == IF i = NoTask THEN {} ELSE {i} \cup AncSelf(tasks[i].par)
 EffCancel(i) == ctxC \/ \E a \in AncSelf(i) : tasks[a].canc
@@ -137,7 +143,7 @@ Live == ~crashed
 
 Init == /\ conf \in Confs
         /\ tasks = <<Task("man", Shapes[conf.shape].root, NoTask, "start",
-                          IF conf.tgtByDigest THEN "" ELSE "T", conf.byDigest, "top", FALSE)>>
+                          IF conf.tgtByDigest THEN "" ELSE "T", conf.byDigest, "top", FALSE, "")>>
         /\ seen = {}
         /\ tb = InitB /\ tm = InitM /\ tt = InitT /\ fbl = {}
         /\ written = {} /\ tagMoved = FALSE /\ lateWrite = FALSE
@@ -186,15 +192,15 @@ SeenEntry(n, tg) == {e \in seen : e.node = n /\ e.tag = tg}
 \* (opt.mu is free: the one long critical section of the code is the tag listing, see MDTags)
 SeenStep(i, np, loopCheck) ==
   LET t == tasks[i]
-      es == SeenEntry(t.node, t.tag)
+      es == SeenEntry(Q(t), t.tag)
   IN omu = NoTask /\
      IF es = {}
      THEN IF np = "retok"
           THEN /\ tasks' = FinTasks(tasks, i, "ok")
-               /\ seen' = seen \cup {[node |-> t.node, tag |-> t.tag, owner |-> i, st |-> "ok"]}
+               /\ seen' = seen \cup {[node |-> Q(t), tag |-> t.tag, owner |-> i, st |-> "ok"]}
                /\ slots' = slots
           ELSE /\ tasks' = [tasks EXCEPT ![i].pc = np, ![i].own = TRUE]
-               /\ seen' = seen \cup {[node |-> t.node, tag |-> t.tag, owner |-> i, st |-> "inprog"]}
+               /\ seen' = seen \cup {[node |-> Q(t), tag |-> t.tag, owner |-> i, st |-> "inprog"]}
                /\ slots' = slots
      ELSE LET e == CHOOSE e \in es : TRUE IN
           IF e.st = "ok" THEN Finish(i, "ok")
@@ -219,8 +225,8 @@ Decide(t) == IF FastOk(t) /\ ~t.sdig THEN "headS"
 NeedPut(t) == t.mt \in {"none", "diff"} \/ conf.force
 \* what the target answers for the reference of t
 Resolve(t) == IF t.tag # ""
-              THEN (IF TagOfT(t.tag) = t.node THEN "same" ELSE IF TagOfT(t.tag) # "-" THEN "diff" ELSE "none")
-              ELSE (IF t.node \in tm THEN "same" ELSE "none")
+              THEN (IF TagOfT(QT(t)) = Q(t) THEN "same" ELSE IF TagOfT(QT(t)) # "-" THEN "diff" ELSE "none")
+              ELSE (IF Q(t) \in tm THEN "same" ELSE "none")
 \* continue after the target HEAD with mt = m
 AfterHeadT(i, m) ==
   LET t == [tasks[i] EXCEPT !.mt = m]
@@ -296,9 +302,9 @@ MSeenG(i) ==
   /\ UNCHANGED <<Obs, Cnt, Env, faults>>
 
 ChildOf(i, k) ==
-  CASE k[2] = "entry"  -> Task("man", k[1], i, "start", "", TRUE, "kid", k[4])
-    [] k[2] = "uentry" -> Task("man", k[1], i, "start", "", TRUE, "try", k[4])
-    [] OTHER           -> Task("blob", k[1], i, "bstart", "", TRUE, "kid", k[4])
+  CASE k[2] = "entry"  -> Task("man", k[1], i, "start", "", TRUE, "kid", k[4], tasks[i].rp)
+    [] k[2] = "uentry" -> Task("man", k[1], i, "start", "", TRUE, "try", k[4], tasks[i].rp)
+    [] OTHER           -> Task("blob", k[1], i, "bstart", "", TRUE, "kid", k[4], tasks[i].rp)
 MSpawn(i) ==
   LET t == tasks[i]
       ks == IF t.ms = "full" /\ ~SameRepo THEN SelectSeq(KidsSeq(t.node), SelKid) ELSE <<>>
@@ -322,7 +328,7 @@ Consume(i, c) ==
                             ![i].err = NewErr(@, ChildErr(c)),
                             ![i].canc = @ \/ (tasks[i].err = "none" /\ ChildErr(c) # "none")]
   /\ finals' = IF tasks[c].res = "loop" /\ tasks[c].via \in {"ref", "dtag"}
-               THEN Append(finals, <<tasks[c].node, tasks[c].tag>>) ELSE finals
+               THEN Append(finals, <<tasks[c].node, tasks[c].tag, tasks[c].rp>>) ELSE finals
   /\ UNCHANGED <<seen, slots, Obs, Cnt, conf, ctxC, crashed, refFeat, tagListed, refLock, omu, ret, faults, retries>>
 
 Wait1Go(i) ==      \* "default: done = true" (no result ready) or all children reported nil
@@ -334,7 +340,7 @@ WaitFail(i) ==     \* all children drained, an error is latched
   /\ Finish(i, tasks[i].err)
   /\ UNCHANGED <<Obs, Cnt, Env, faults>>
 
-RefTask(i, n) == Task("man", n, i, "start", "", TRUE, "ref", FALSE)
+RefTask(i, n) == Task("man", n, i, "start", "", TRUE, "ref", FALSE, RefRp(tasks[i]))
 SpawnRefs(i, L, byTag) ==
   LET ns == InOrder(L) IN
   tasks' = [tasks EXCEPT ![i].pc = "dtags", ![i].pend = @ + Len(ns), ![i].rtag = byTag]
@@ -369,7 +375,7 @@ MRefs2(i) ==       \* referrerListByTag: GET sha256-<hex>; not found = no referr
      \/ /\ CanFail(i) /\ Finish(i, ErrOf(i)) /\ faults' = faults + Cost(i)   \* returns without draining
   /\ UNCHANGED <<Obs, Cnt, Env>>
 
-DTagTask(i, d) == Task("man", d[2], i, "start", d[1], FALSE, "dtag", FALSE)
+DTagTask(i, d) == Task("man", d[2], i, "start", d[1], FALSE, "dtag", FALSE, tasks[i].rp)
 \* opt.mu is held while the tags are listed: nobody gets past imageSeenOrWait during that request
 MDTags(i) ==
   LET t == tasks[i] IN
@@ -405,14 +411,14 @@ Wait2Done(i) ==
 IsTop(i) == tasks[i].via = "top"
 PutEffect(i) ==
   LET t == tasks[i]
-      tt2 == IF t.tag # "" THEN SetTag(tt, t.tag, t.node) ELSE tt
+      tt2 == IF t.tag # "" THEN SetTag(tt, QT(t), Q(t)) ELSE tt
       \* the requested tag now differs from what it was before the copy / the top manifest is PUT to
       \* the requested digest reference (the monitor's notion of "the final write")
       final == IF conf.tgtByDigest THEN IsTop(i)
-               ELSE t.tag = "T" /\ ~(\E p \in InitT : p = <<"T", t.node>>)
-  IN /\ tm' = tm \cup {t.node}
+               ELSE t.rp = "" /\ t.tag = "T" /\ ~(\E p \in InitT : p = <<"T", t.node>>)
+  IN /\ tm' = tm \cup {Q(t)}
      /\ tt' = tt2
-     /\ written' = written \cup {t.node}
+     /\ written' = written \cup {Q(t)}
      /\ lateWrite' = (lateWrite \/ tagMoved)
      /\ tagMoved' = (tagMoved \/ final)
      /\ tb' = tb
@@ -425,7 +431,7 @@ MPut(i) ==
   /\ IF TgtIsDir
      THEN \* ocidir.ManifestPut: file + index under o.mu, then referrerPut; the context is not consulted
           /\ PutEffect(i)
-          /\ fbl' = IF HasSubject(t.node) THEN fbl \cup {<<SubjectOf(t.node), t.node>>} ELSE fbl
+          /\ fbl' = IF HasSubject(t.node) THEN fbl \cup {<<t.rp \o SubjectOf(t.node), Q(t)>>} ELSE fbl
           /\ Finish(i, "ok") /\ UNCHANGED faults
      ELSE \/ /\ ~EffCancel(i) /\ PutEffect(i) /\ fbl' = fbl
              /\ IF NeedFb(i) THEN tasks' = [tasks EXCEPT ![i].pc = "fbget"] /\ UNCHANGED <<seen, slots>>
@@ -446,7 +452,7 @@ MFbPut(i) ==       \* PUT the updated referrers index under the fall-back tag, u
       s == SubjectOf(t.node)
   IN /\ t.pc = "fbput" /\ refLock = i
      /\ \/ /\ ~EffCancel(i)
-           /\ fbl' = fbl \cup {<<s, t.node>>} /\ tt' = SetTag(tt, FbTag(s), "D:" \o s)
+           /\ fbl' = fbl \cup {<<t.rp \o s, Q(t)>>} /\ tt' = SetTag(tt, t.rp \o FbTag(s), t.rp \o ("D:" \o s))
            /\ nWrites' = nWrites + 1
            /\ Finish(i, "ok") /\ UNCHANGED <<faults, tb, tm, written, tagMoved, lateWrite, getc, comc, nBlobReq, nManPut>>
         \/ /\ CanFail(i) /\ Finish(i, ErrOf(i)) /\ faults' = faults + Cost(i) /\ UNCHANGED <<Obs, Cnt>>
@@ -465,10 +471,10 @@ BHead(i) ==
   /\ t.pc = "bhead"
   /\ IF SameRepo THEN Finish(i, "ok") /\ UNCHANGED <<faults, Cnt>>
      ELSE IF TgtIsDir
-     THEN /\ IF t.node \in tb THEN Finish(i, "ok") ELSE tasks' = [tasks EXCEPT ![i].pc = "bacq"] /\ UNCHANGED <<seen, slots>>
+     THEN /\ IF Q(t) \in tb THEN Finish(i, "ok") ELSE tasks' = [tasks EXCEPT ![i].pc = "bacq"] /\ UNCHANGED <<seen, slots>>
           /\ UNCHANGED <<faults, Cnt>>
      ELSE \/ /\ ~EffCancel(i)
-             /\ IF t.node \in tb THEN Finish(i, "ok") ELSE tasks' = [tasks EXCEPT ![i].pc = "bacq"] /\ UNCHANGED <<seen, slots>>
+             /\ IF Q(t) \in tb THEN Finish(i, "ok") ELSE tasks' = [tasks EXCEPT ![i].pc = "bacq"] /\ UNCHANGED <<seen, slots>>
              /\ BlobReq /\ UNCHANGED <<faults, getc, comc, nManPut, nWrites>>
           \/ /\ CanFail(i)                                        \* any error reads as "not there"
              /\ tasks' = [tasks EXCEPT ![i].pc = "bacq"] /\ UNCHANGED <<seen, slots, Cnt>>
@@ -489,7 +495,7 @@ BMount(i) ==
   LET t == tasks[i] IN
   /\ t.pc = "bmount"
   /\ \/ /\ ~EffCancel(i) /\ conf.mount                          \* 201 mounted
-        /\ BlobWrite(t.node) /\ Finish(i, "ok")
+        /\ BlobWrite(Q(t)) /\ Finish(i, "ok")
         /\ BlobReq /\ nWrites' = nWrites + 1 /\ UNCHANGED <<faults, getc, comc, nManPut>>
      \/ /\ ~EffCancel(i) /\ ~conf.mount                         \* 202 with an upload session to cancel
         /\ tasks' = [tasks EXCEPT ![i].pc = "bmdel"] /\ UNCHANGED <<seen, slots, Obs, faults>>
@@ -530,14 +536,14 @@ BPost2(i) ==
      \/ /\ CanFail(i) /\ Finish(i, ErrOf(i)) /\ faults' = faults + Cost(i) /\ UNCHANGED Cnt
   /\ UNCHANGED <<Obs, Env>>
 
-Commit(i) == /\ BlobWrite(tasks[i].node) /\ comc' = Bump(comc, tasks[i].node)
+Commit(i) == /\ BlobWrite(Q(tasks[i])) /\ comc' = Bump(comc, tasks[i].node)
              /\ BlobReq /\ nWrites' = nWrites + 1 /\ UNCHANGED <<getc, nManPut>>
 BPut(i) ==
   LET t == tasks[i] IN
   /\ t.pc = "bput"
   /\ IF TgtIsDir
      THEN \* ocidir.BlobPut: tmp file, digest check, rename
-          \/ /\ BlobWrite(t.node) /\ Finish(i, "ok") /\ UNCHANGED <<faults, Cnt>>
+          \/ /\ BlobWrite(Q(t)) /\ Finish(i, "ok") /\ UNCHANGED <<faults, Cnt>>
           \/ /\ EffCancel(i) /\ Finish(i, "canceled") /\ UNCHANGED <<faults, Cnt, Obs>>
      ELSE \/ /\ ~EffCancel(i) /\ Commit(i) /\ Finish(i, "ok") /\ UNCHANGED faults
           \/ /\ EffCancel(i) /\ Finish(i, "canceled") /\ UNCHANGED <<faults, Cnt, Obs>>
@@ -606,7 +612,7 @@ Return ==
           /\ ret' = IF tasks[j].res = "ok" THEN "" ELSE "err"
           /\ UNCHANGED finals
      ELSE IF finals # <<>>                                        \* finalFn: retry what a loop postponed
-     THEN /\ tasks' = Append(tasks, Task("man", finals[1][1], NoTask, "start", finals[1][2], finals[1][2] = "", "final", FALSE))
+     THEN /\ tasks' = Append(tasks, Task("man", finals[1][1], NoTask, "start", finals[1][2], finals[1][2] = "", "final", FALSE, finals[1][3]))
           /\ finals' = Tail(finals) /\ ret' = ""
      ELSE ret' = "ok" /\ UNCHANGED <<tasks, finals>>
   /\ UNCHANGED <<seen, slots, Obs, Cnt, conf, ctxC, crashed, refFeat, tagListed, refLock, omu, faults, retries>>
@@ -636,7 +642,8 @@ Step(i) == \/ MStart(i) \/ WSeen(i) \/ MHeadT(i) \/ MHeadT2(i) \/ MHeadS(i) \/ M
 \* object).  With Reduce, whenever some task is at a local step only the lowest such task moves.
 \* What remains interleaved are the writes and the waits on shared objects: one representative per
 \* commit order.  The small shapes are explored without it as well.
-Unique(n) == n \in (IF HasFB THEN Sh.uniqfb ELSE Sh.uniq)      \* precomputed in CopyShapes
+Unique(n) == n \in (IF HasFB THEN Sh.uniqfb ELSE Sh.uniq)      \* precomputed in CopyShapes (per object: an
+                                                               \* object reached in both target repositories is named twice)
 LocalPcs == {"headS", "headS2", "spawn", "dtags2", "bacq", "bmdel", "bget", "bpost", "bpost2", "bpatch"}
 IsLocal(j) ==
   LET t == tasks[j] IN
